@@ -9,6 +9,7 @@ ls -d seeded/$PAT* | xargs -P "$PAR" -I{} sh -c '
   d={}; n=$(basename "$d"); id=${n%%-*}
   case "$n" in C03-s3|C05-s3|C03-u2|C03-u3) id=C04;; C06-s2) id=C09;; C01-u3) id=C05;;
     C01-v2|C19-v1) id=C13;; C02-v1|C16-v1) id=C03;; C04-v1|C12-v1) id=C09;; C04-v2) id=C11;; C09-v1) id=C04;; C14-v1) id=C01;;
+    C13-u2) echo "| $n | obsolete: the change is now part of /repo (fix cad623b), see meta.json |"; exit 0;;
     C01-v3|C08-v2) echo "| $n | not judged (outside the statement, see meta.json) |"; exit 0;; esac
   r=$(timeout 1800 selftest/with_patch.sh "$d/patch.diff" "$id" 2>&1 | grep -v conda | grep -v KNOWN-FINDING | head -1 | cut -c1-160)
   echo "| $n | $r |"' > selftest/SEEDED_RESULTS.tmp
